@@ -165,6 +165,12 @@ def driver_wiring(ctx):
     inits = [y for y in walk(st) if y.op == 'call' and is_component(y.args[0], 0)]
     ctx.ob('C16.O5', fr.short, 'the history starts from init_fn()', bool(inits) and not any(is_component(y, 1) for y in walk(st)),
            f'the state handed to the compiled scan must be built from init_fn(); got `{show(st, maxdepth=4)[:160]}`', ctx.loc(fr), sample='initial_state = init_fn()')
+    try:
+      n0_ = ev.subscript(st, const('n'))
+    except Exception:
+      n0_ = NONE
+    ctx.ob('C16.O5', fr.short, 'the history starts at row 0', is_const(n0_, 0),
+           f"the state handed to the compiled scan must start with the row counter n = 0; got `{show(n0_, maxdepth=3)[:80]}`", ctx.loc(fr), sample="initial_state['n'] = 0")
     lg = c.args.get('loss_and_grad', NONE)
     oklg = is_ext_call(lg, 'jax.value_and_grad') and len(lg.args[1]) == 1 and not lg.args[2] and field(lg.args[1][0], 'loss')
     ctx.ob('C16.O5', fr.short, 'loss_and_grad = value_and_grad(dataset.loss)', oklg,
@@ -181,15 +187,49 @@ def driver_wiring(ctx):
                  f'`{nm}` is a static argument of the jitted scan and is an instance of {ci.name}, but {hole}: two runs whose hyper-parameters differ can '
                  f'compare equal and share one trace (the second run then uses the first run\'s lr / delta)', ctx.loc(fr), sample='closures / records compared field by field')
   # the compiled scan itself: one update per row, fed with the loss and gradient of the current iterate on that row
-  rows = [f for q, f in m.module(TM).functions.items() if q.startswith('_compiled_run_dataset.')]
-  UF = sym('cfg', fc.short, 'update_fn')           # read from the enclosing function's scope by the row function
-  LG = sym('cfg', fc.short, 'loss_and_grad')
+  # follow the function values handed to lax.scan / lax.fori_loop (nested defs, module-level helpers bound by
+  # functools.partial, lambdas - whatever they are): each is applied to a symbolic (index | chunk, state) pair
+  UF = sym('param', fc.short, 'update_fn')
+  LG = sym('param', fc.short, 'loss_and_grad')
+  ST = sym('spec', 'row_state')
+  ev2 = evaluator(m)
+  r_top = ev2.run(fc)
+  ctx.evaluations += 1
+  bodies = []
+  seen_fns = set()
+  work = [r_top]
+  while work:
+    t = work.pop()
+    for c in walk(t):
+      if not (is_ext_call(c, 'jax.lax.scan') or is_ext_call(c, 'jax.lax.fori_loop')):
+        continue
+      for f_ in list(c.args[1]) + [v_ for _, v_ in c.args[2]]:
+        if f_.op not in ('closure', 'partial', 'bound') or f_ in seen_fns:
+          continue
+        seen_fns.add(f_)
+        pair = [ST, sym('spec', 'chunk')] if is_ext_call(c, 'jax.lax.scan') else [sym('spec', 'loop_index'), ST]
+        rb = ev2.call(f_, pair, {}, None, None)
+        bodies.append(rb)
+        work.append(rb)
   ucalls = []
-  for fp in rows:
-    ev2 = evaluator(m)
-    r2 = ev2.run(fp)
-    ctx.analysed(fp)
-    ucalls += [y for y in walk(r2) if y.op == 'call' and y.args[0] is UF]
+  for r2 in bodies:
+    mine = list(dict.fromkeys(y for y in walk(r2) if y.op == 'call' and y.args[0] is UF))
+    ucalls += mine
+    if mine and not any(is_ext_call(c, 'jax.lax.fori_loop') for c in walk(r2)):
+      fp = fc
+      # the row counter: rows are consumed one by one, in order (row n on entry, n + 1 on exit)
+      n_in = T('sub', ST, const('n'))
+      n_out = ev2.subscript(r2, const('n'))
+      okn = n_out.op == 'bin' and n_out.args[0] == '+' and any(is_const(a_, 1) for a_ in n_out.args[1:]) and \
+          any(a_.op == 'sub' and is_const(a_.args[1], 'n') and (a_.args[0] is ST or a_.args[0] in mine) for a_ in n_out.args[1:])
+      ctx.ob('C16.O5', fp.short, "row counter advances by one per update", okn,
+             f"state['n'] must be advanced by exactly 1 per processed row; got `{show(n_out, maxdepth=4)[:160]}`", ctx.loc(fp), sample="state['n'] += 1")
+      for u in mine:
+        la = u.args[1][1].args[0].args[1] if len(u.args[1]) == 3 and u.args[1][1].op == 'sub' and u.args[1][1].args[0].op == 'call' else ()
+        okr = len(la) == 3 and la[1].op == 'sub' and la[1].args[1] is n_in
+        ctx.ob('C16.O5', fp.short, "the row read is x[state['n']] of the incoming state", okr,
+               f"the row fed to loss_and_grad must be indexed by the incoming state['n']; got `{show(la[1], maxdepth=4)[:120] if len(la) == 3 else None}`", ctx.loc(fp),
+               sample="ix = state['n']; r = x[ix]")
   ucalls = list(dict.fromkeys(ucalls))
   ctx.need('C16.O5', len(ucalls), 1, 'update_fn application in the compiled scan')
   for u in ucalls:
